@@ -17,8 +17,8 @@ yields ub = 0 for every zone whose first rank exceeds the cut-off.
 that calls evaluate_at depends on the `limit` argument (matches deeper in a zone than the remaining limit would be masked out as if they had failed the predicate).
 Does NOT decide: the remaining arithmetic of the RLTE planner (which min/max a partial ladder yields, zone sizes after compaction), slice positions, typed order of ScalarValue::compare (value level).
 """
-FLOOR = 9
-REQUIRED = ["C10.a", "C10.b", "C10.c", "C10.d", "C10.e1", "C10.e2", "C10.f", "C10.g", "C10.h"]
+FLOOR = 10
+REQUIRED = ["C10.a", "C10.b", "C10.c", "C10.d", "C10.e1", "C10.e2", "C10.f", "C10.g", "C10.h", "C10.i"]
 
 COPIES = ["engine::core::read::segment_query_runner::compare_scalar_values",
           "engine::core::read::flow::operators::memtable_source::compare_scalar_values",
@@ -330,3 +330,46 @@ def run(ctx):
             bad.append(("compare-lane-by-parsing", "ScalarValue::compare chooses its lane through %s, which parse Utf8 text: for a string column the lane depends on the pair of values and the comparison is not a total order (\"10\" < \"1a\" < \"9\" < \"10\")" % ", ".join(h for h, _ in hit), hit[0][1]))
         return bad
     ctx.run("C10.h", "K10 READS", "engine::types::ScalarValue::compare", "the ORDER BY comparator does not choose its lane from the text of the two values", h_)
+
+    def i_(inst):
+        """The shard-level mergers cap their output at LIMIT + OFFSET rows with offset 0; the handler gives the response writer no
+        limit / offset for an ordered query. The ONLY place that skips OFFSET rows and stops at LIMIT is the task OrderedStreamMerger
+        ::spawn starts. So every stream OrderedStreamMerger::merge hands back must read from the channel that task writes to - never
+        from a shard's own receiver (one shard, or any other `already ordered` short cut)."""
+        bad = []
+        m = F.fn("query::merge::streaming::OrderedStreamMerger::merge")
+        sp_ = [c for c in m.calls if not c.cleanup and re.search(r"ordered_merger::OrderedStreamMerger::spawn$", c.nname)]
+        if len(sp_) != 1:
+            raise AnchorMissing("OrderedStreamMerger::spawn in the coordinator merge (%d)" % len(sp_))
+        spawn = sp_[0]
+        chans = [c for c in m.calls if not c.cleanup and re.search(r"FlowChannel::bounded$|mpsc::channel$", c.nname)]
+        chl = set()
+        for c in chans:
+            chl |= {l for l, _ in m.flow_forward(c.dest)}
+        news = [c for c in m.calls if not c.cleanup and c.nname.endswith("QueryBatchStream::new")]
+        if not news:
+            raise AnchorMissing("QueryBatchStream::new in the coordinator merge")
+        # limit and offset reach the spawned task
+        def through(op, depth=4):
+            out = set()
+            for l in m.origins(op):
+                if l[0] == "call" and depth > 0 and re.search(r"Option::(map|unwrap_or\w*|copied|cloned)$", norm_path(l[1])):
+                    cc = m.call_at(l[2])
+                    if cc.args:
+                        out |= through(cc.args[0], depth - 1)
+                else:
+                    out.add(l)
+            return out
+        lo = [a_ for a_ in spawn.args if any(l[0] == "param" and len(l) > 2 and (".limit" in l[2] or ".offset" in l[2]) for l in through(a_))]
+        inst.sites += [sp(m, spawn.bb)] + [sp(m, c.bb) for c in news] + ["limit / offset arguments of the merge task: %d" % len(lo)]
+        if len(lo) < 2:
+            bad.append(("merge-task-without-limit-offset", "the coordinator merge task is not given both self.limit and self.offset", sp(m, spawn.bb)))
+        for c in news:
+            rcv = c.args[1]
+            own = bool((m._origin_locals(rcv) | wide_all(m, rcv)) & chl)
+            from_param = any(l[0] == "param" and l[1] == "receivers" for l_ in (m._origin_locals(rcv) | wide_all(m, rcv)) for l in m.origins({"c": [l_]}))
+            after_spawn = m.dominates_edge((spawn.bb, spawn.to), c.bb)
+            if not own or from_param or not after_spawn:
+                bad.append(("stream-bypasses-merge-task", "OrderedStreamMerger::merge hands back a stream that does not read from the merge task's channel (a shard's own receiver, or a return before the task is started): OFFSET rows are not skipped and LIMIT is the shard-level cap LIMIT + OFFSET", sp(m, c.bb)))
+        return bad
+    ctx.run("C10.i", "K7 PROV + K1", "command::handlers::query::merge::streaming::OrderedStreamMerger::merge", "every ordered result passes the one task that applies OFFSET and LIMIT", i_)
